@@ -50,7 +50,7 @@ type world struct {
 
 func newWorld(c cfg) *world {
 	w := &world{}
-	w.ag = statsd.NewMetricAggregator([]float64{90}, c.Exp[0], c.Exp[1], c.Exp[2], c.Exp[3], gostatsd.TimerSubtypes{}, 0)
+	w.ag = statsd.VerifWiredAggregator(statsd.Server{PercentThreshold: []float64{90}, ExpiryIntervalCounter: c.Exp[0], ExpiryIntervalGauge: c.Exp[1], ExpiryIntervalSet: c.Exp[2], ExpiryIntervalTimer: c.Exp[3], DisabledSubTypes: gostatsd.TimerSubtypes{}, HistogramLimit: 0})
 	w.ag.VerifSetNow(func() time.Time { return fx.Epoch.Add(w.now) })
 	return w
 }
